@@ -264,7 +264,7 @@ func (g *c06) valueStream(proto0 proto.Message, subs []sub) {
 // streams: a few dozen event streams per run, each with 1-3 concurrent subscriptions (own masks)
 func (g *c06) streams(n int) {
 	r := g.r
-	classes := []string{"single", "single", "multi", "parent+child", "child+parent", "through-repeated-message", "nil", "empty"}
+	classes := []string{"single", "single", "multi", "parent+child", "child+parent", "through-repeated-message", "nil", "empty", "family", "family", "chain"}
 	for i := 0; i < n; i++ {
 		proto0 := msgTypes[r.Intn(len(msgTypes))]
 		// the masks are built against a populated sample of the type
